@@ -583,8 +583,9 @@ C16_AttachmentsOwnedMarked ==
 \* a sync acts only on objects that satisfy both selectors or still carry the finalizer
 C16_Selected ==
   ((HookE \/ (ReqE /\ E.verb # "get")) /\ IsDecorator)
-  => \/ CtlMatches(C.parent) \/ HasFin(C.parent, C)
-     \/ Report("C16", "C16_Selected", <<"acted on an unselected object", C.parent.labels, C.parent.ann>>)
+  \* judged on the target as the sync knows it NOW (after a finalizer update: the object that update returned)
+  => \/ CtlMatches(Cur(C)) \/ HasFin(Cur(C), C)
+     \/ Report("C16", "C16_Selected", <<"acted on an unselected object", Cur(C).labels, Cur(C).ann, Cur(C).fins>>)
 
 \* =======================================================================================
 \* C17(a) -- shared caches stay read-only; the hook is sent what the API server delivered
